@@ -128,6 +128,9 @@ void World::apply(int i, const Op& op) {
 	INode& n = *s.node;
 	Harness& h = *s.h;
 	const uint32_t caps = n.caps() & plan.wp.featureMask;
+	// every call that exists in a templated (changeTo<State>()) and an id-based (changeTo(id)) flavour uses one or the other for the whole operation,
+	// decided by the operation's uid: the same on every node that executes it, unchanged by minimisation and replay
+	{ const bool typed = ((mix64(0x7e57ed, op.uid) >> 5) & 1) != 0; n.useTyped(typed); if (typed && i == 0) probe("op_through_templated_api"); }
 	h.beginOp(&op);
 	{ Ev e; e.k = EV_API; e.a = op.kind; h.push(e); }
 	const bool act = s.expectActivated;
@@ -590,6 +593,7 @@ void World::afterOp(int i, const Op& op, const Obs& before) {
 	}
 	modelAfterOp(*this, i, op, before);
 	checkPayloads(i, op, before);
+	checkIssuedKinds(i, op, before);
 	checkPlansStorage(i, op, before);
 	// a state that exits takes its marks with it; exit() and load() wipe all of them
 	if (!s.extSuccess.empty()) {
